@@ -368,7 +368,7 @@ impl Prop for C11 {
     }
     fn cases(&self, tier: Tier) -> u32 {
         match tier {
-            Tier::Quick => 1500,
+            Tier::Quick => 4000,
             Tier::Thorough => 30000,
         }
     }
